@@ -731,12 +731,14 @@ def run(ctx):
                 "values, client) for calls; non-trivial = every call plan with at least one flattened argument")
     ctx.assume("a flattened argument holding the default of a field reached through a dotted path ('' / 0 / []) is excluded "
                "from the kwargs==request oracle: whether the parent messages count as set is not fixed by the statement")
-    ctx.assume("at most one member of a oneof is flattened per method; field names retry/timeout/metadata/request are C12's")
-    ctx.assume("well-known types with proto-plus marshal rules (Duration, Timestamp, wrappers, Struct, Value) are leaves of signatures")
+    ctx.assume("at most one member of a oneof is flattened per method (oneof clearing is protobuf's, not the generator's)")
+    ctx.assume("well-known / raw-protobuf message types inside a same-package request (FieldMask, Duration, Timestamp, wrappers, Struct, "
+               "Value) are leaves of signatures: a path INTO them (e.g. \"mask.paths\", \"ttl.seconds\") is not generated")
     r = ctx.rng("flatten")
     for name, blob in corpus_entries():
         run_api(ctx, ctx.rng("corpus", name), blob["spec"], f"corpus:{name}", plans=blob.get("plans"))
-    t2_paths(ctx, ctx.rng("t2"))
+    for k in range(ctx.n(1, 12)):
+        t2_paths(ctx, ctx.rng("t2", k))
     for a in range(ctx.n(18, 300)):
         run_api(ctx, r, gen_spec(r, ctx.n(6, 8)), f"api{a}")
 
@@ -759,8 +761,27 @@ def replay(ctx, payload):
 
 
 CLAIM = dict(
-    text="to be filled",
-    technique="Lean 4 theorems + differential T2/T3",
+    text=('Lean 4 proofs about a hand-written model of Method._fields_mapping / MessageType.get_field and of BOTH emitted application '
+          'schemes (sync macro: assign-all, with a second extend/update pass for dependency-package requests; asyncio template: three '
+          'passes assign / update / extend, or the pb2 constructor for dependency-package requests): (1) the flattened parameters are the '
+          'declared fields at the position of their first occurrence (params_in_declared_order, params_exactly_declared, yielded_in_order); '
+          '(2) for keys none of which is a prefix of another, arguments of the field\'s kind and an empty list/dict only for top-level keys, '
+          'the sync scheme, the asyncio scheme and plain field setting in declared order produce the SAME wire-level request '
+          '(apply_sync_eq_set, apply_async_eq_set, apply_async_cross_eq_set, sync_async_agree, kwargs_equiv_request[_cross]); the sync macro of a '
+          'same-package request is plain assignment unconditionally (apply_sync_eq_set_unconditional); (3) request + any flattened argument, '
+          'falsy ones included, raises ValueError before anything is sent, and only then (mixed_call_rejected, rejected_before_send, '
+          'value_error_iff_mixed); (4) every rendered request.<key> is a keyword-free attribute path that proto-plus resolves to the fields '
+          'get_field found when no non-terminal segment is a reserved word (key_attr_resolves). Six *_counterexample theorems pin the inputs '
+          'where the real code leaves the statement (all reproduced on /repo, see findings/C05.json). Tie: T1 bridge lemmas for RESERVED_NAMES '
+          'and keyword.kwlist; T2 the real flattened_fields/_fields_mapping vs the model on generated and unresolvable signatures; T3 the emitted '
+          'sync and asyncio clients against a loopback gRPC server (inspect.signature; bytes of kwargs / request / mixed calls decoded under the '
+          'input descriptors) vs the model; a model-independent oracle restating the property.'),
+    technique='Lean 4 theorems (commutation of slot updates on diverging paths, permutation-invariance of folds, induction over paths) '
+              '+ differential T2 (schema functions) and T3 (emitted sync/asyncio clients on loopback gRPC) + wire-level oracle',
     design="7.5",
-    note="",
+    note=('Values are wire-level trees with opaque list items / map entries; oneof clearing, proto-plus marshal rules for well-known types and '
+          'python-level type errors are outside the model (the generator keeps to one oneof member per method and treats well-known types as '
+          'leaves). The kwargs==request oracle is not applied to default-valued arguments of dotted keys (presence of the parents is not fixed '
+          'by the statement); sync==asyncio is. Requests from a proto sub-package of the API (proto-plus types with a different package tuple) '
+          'are not generated. Six known findings are listed in findings/C05.json and replayed from corpus/C05 on every run.'),
 )
